@@ -39,14 +39,20 @@ fn parent(args: &Args) {
         .timeout(300);
     let ends = run::run_children(args, &spec, &mut out);
     run::classify_ends(&ends, &mut out, true);
-    if CAP != 5 {
+    if CAP_BUILD {
         // cap build: print the merged result for the driver (c01 parent merges it)
         out.emit();
         std::process::exit(0);
     }
     // thorough: also the compile-time-capped build (separate binary, see check script)
     let mut extra = Map::new();
-    if let Ok(p) = std::env::var("VERIF_C01CAP_BIN") {
+    // (2nd entry: only the debug-build feature `max_level_warn` is set; "this level is configured
+    // separately for release and debug builds", so the release build is not capped at all)
+    for (var, key, what) in [
+        ("VERIF_C01CAP_BIN", "compile_time_cap_build", "INFO (features max_level_info + release_max_level_info)"),
+        ("VERIF_C01CAP2_BIN", "debug_only_cap_feature_in_a_release_build", "none: feature max_level_warn alone does not cap a release build"),
+    ] {
+    if let Ok(p) = std::env::var(var) {
         let mut cap_out = Out::new();
         let o = std::process::Command::new(&p)
             .args([
@@ -76,8 +82,8 @@ fn parent(args: &Args) {
             Err(e) => out.harness_errors.push(format!("cannot run c01cap: {e}")),
         }
         extra.insert(
-            "compile_time_cap_build".into(),
-            json!({"cap": "INFO (features max_level_info + release_max_level_info)",
+            key.into(),
+            json!({"cap": what,
                    "evaluations": cap_out.evals, "distinct": cap_out.distinct.len(),
                    "counters": cap_out.counters}),
         );
@@ -89,6 +95,7 @@ fn parent(args: &Args) {
         for h in cap_out.distinct {
             out.distinct.insert(h ^ 0x5555_5555);
         }
+    }
     }
     run::finish(
         Finish {
